@@ -25,7 +25,11 @@ def run(repo: Repo, tier, rep: Report):
     m += check_open_file_decorator(repo, rep)
     rep.floor("file-format rule instances (interactions)", m, 30)
 
+    from sa.core import AnalysisError
+    impure = []
+
     def addp(rule, construct, key, msg, line=0):
+        impure.append(construct)
         rep.finding(rule, construct, key, msg, line=line)
     check_purity(repo, addp, only={"stream_interactions"})
     from sa.readers import check_stream
@@ -33,6 +37,10 @@ def run(repo: Repo, tier, rep: Report):
     def adds(rule, construct, key, msg, line=0):
         rep.finding("R.stream/" + rule, construct, key, msg, line=line)
     for cls in CLASSES:
-        check_stream(repo, cls, adds)
+        try:
+            check_stream(repo, cls, adds)
+        except AnalysisError:
+            if not any(cls + ".stream_interactions" in c for c in impure):
+                raise
     rep.assume(*common.CTOR_ASSUMPTIONS)
     rep.assume("well-formed logs: each '-' is preceded by a '+' of the same pair (the property's own quantifier)")
